@@ -402,9 +402,15 @@ class SSTranslator:
         self.from_ba_args = [src(a) for a in call.args]
 
     def translate_all(self):
-        for w in ('CCF', 'OCF', 'DCF'):
-            self.translate_form(w)
-        self.translate_dispatch()
+        # fail closed: no raw IndexError / KeyError / ... escapes from walking the syntax tree
+        try:
+            for w in ('CCF', 'OCF', 'DCF'):
+                self.translate_form(w)
+            self.translate_dispatch()
+        except Untranslatable:
+            raise
+        except (IndexError, KeyError, AttributeError, TypeError, ValueError, AssertionError) as e:
+            raise Untranslatable('%s: source is outside the recognised shape (%s: %s)' % (FNAME, type(e).__name__, str(e)[:120]))
         return self
 
 
